@@ -123,7 +123,7 @@ def run(chk):
     if len(edges) < 40:
         raise vlib.Inconclusive("too few (state, class) edges: %d" % len(edges))
     binary = vlib.build("root")
-    names = ["12", "13", "12cbc", "12cid", "13cid"] if chk.quick else sorted(SCENS)
+    names = ["12", "13", "12cbc", "12cid", "13cid", "12chacha"] if chk.quick else sorted(SCENS)
     cases = []
     for ver, at, mclass in edges:
         for sn in [n for n in names if SCENS[n]["ver"] == ver]:
